@@ -158,14 +158,18 @@ static int32_t do_twr_op(struct jls_twr_s *wr, const Op &o) {
             std::vector<uint8_t> data; op_payload(o, data);
             ExactBuf b(data, data.size());
             float y; memcpy(&y, &o.ybits, 4);
+            uint32_t dsz = (uint32_t) data.size();
+            if ((o.st == 2 || o.st == 3) && (o.gs & 1)) dsz = 0;      // "data_size: the length of data for BINARY" - ignored for strings
             return jls_twr_annotation(wr, (uint16_t) o.sig, o.a, y, (enum jls_annotation_type_e) o.at, (uint8_t) o.grp,
-                                      (enum jls_storage_type_e) o.st, b.p, (uint32_t) data.size());
+                                      (enum jls_storage_type_e) o.st, b.p, dsz);
         }
         case OP_UTC: return jls_twr_utc(wr, (uint16_t) o.sig, o.a, o.b);
         case OP_USER: {
             std::vector<uint8_t> data; op_payload(o, data);
             ExactBuf b(data, data.size());
-            return jls_twr_user_data(wr, (uint16_t) o.meta, (enum jls_storage_type_e) o.st, b.p, (uint32_t) data.size());
+            uint32_t dsz = (uint32_t) data.size();
+            if ((o.st == 2 || o.st == 3) && (o.gs & 1)) dsz = 0;      // "Ignored for STRING and JSON"
+            return jls_twr_user_data(wr, (uint16_t) o.meta, (enum jls_storage_type_e) o.st, b.p, dsz);
         }
         case OP_FLUSH: return jls_twr_flush(wr);
         case OP_FLAGS: return jls_twr_flags_set(wr, (uint32_t) o.en);
@@ -307,7 +311,8 @@ void do_read(struct jls_rd_s *rd, const Op &o, CallRec &c) {
         case RD_LEN: { int64_t n = -1; c.rc = jls_rd_fsr_length(rd, (uint16_t) o.sig, &n); if (!c.rc) ser_i64(c.out, n); break; }
         case RD_FSR: case RD_FSR_F32: {
             int bits = dt_bits[o.dtype];
-            size_t sz = bits < 8 ? (size_t) (1 + ((uint64_t) o.n * bits) / 8) : (size_t) ((uint64_t) o.n * bits / 8);
+            uint64_t nn = o.n > 0 ? (uint64_t) o.n : 0;      // a non-positive length still gets a valid (minimal) buffer
+            size_t sz = bits < 8 ? (size_t) (1 + (nn * bits) / 8) : (size_t) (nn * bits / 8);
             ExactBuf b(sz);
             memset(b.p, 0xEE, sz);
             if (o.kind == RD_FSR) c.rc = jls_rd_fsr(rd, (uint16_t) o.sig, o.a, b.p, o.n);
